@@ -88,7 +88,11 @@ FORMS = {
     "crate-qualified-same-name": ("", "crate::other::PLACEN", ("none",)),
     # a second file of crate a imports the same name from crate c (used by C06's hash-ws group: which import survives must not depend on hashing)
     "same-name-both-imported": ("use b::PLACEN;", "PLACEN", ("import", "b", "N")),
+    # ... and the same inside ONE file: two modules of the file import the name from b and from c
+    "same-name-two-modules": ("", "PLACEN", ("import", "b", "N")),
 }
+A_TWO_MODULES = ("pub mod x {\n    use b::PLACEN;\n    #[typeshare]\n    pub struct Ux { pub f: PLACEN }\n}\n"
+                 "pub mod y {\n    use c::PLACEN;\n    #[typeshare]\n    pub struct User { pub g: PLACEN }\n}\n")
 A_OTHER_SAME = "#[typeshare]\npub struct Local { pub q: bool }\n#[typeshare]\npub struct PLACEN { pub own: bool }\n"
 A_OTHER_C = "use c::PLACEN;\n#[typeshare]\npub struct Local { pub q: bool, pub r: PLACEN }\n"
 POSITIONS = {
@@ -110,6 +114,8 @@ DEPTHS = {"lib": "a/src/lib.rs", "module": "a/src/models/m.rs", "deep": "a/src/x
 def workspace(form, pos, depth):
     use, spelled, expect = FORMS[form]
     a_src = (use + "\n" if use else "") + "use std::collections::HashMap;\n" + POSITIONS[pos] % spelled
+    if form == "same-name-two-modules":
+        a_src = A_TWO_MODULES
     files = [("a", DEPTHS[depth], a_src), ("a", "a/src/other.rs", A_OTHER_C if form == "same-name-both-imported" else A_OTHER_SAME if form.endswith("-path-same-name") or form == "crate-qualified-same-name" else A_OTHER)]
     if form == "dash-crate":
         files.append(("d_e", "d-e/src/lib.rs", B_LIB))
@@ -476,7 +482,7 @@ def case_file_name(case):
 def run(rep, tier, only=None):
     prog()
     t0 = time.time()
-    forms = [f for f in FORMS if f != "same-name-both-imported"]   # that one imports the name from two crates on purpose (C06 hash-ws)
+    forms = [f for f in FORMS if f not in ("same-name-both-imported", "same-name-two-modules")]   # that one imports the name from two crates on purpose (C06 hash-ws)
     poss = list(POSITIONS)
     icases = []
     for lang in ("typescript", "kotlin"):
